@@ -48,3 +48,15 @@ Proof. exact tie_unknown_text. Qed.
 (* the reading of one "available since" token (product, version, client-only flag) is Algorithm.get_ssh_version as it reads now (T1c translation) *)
 Theorem c03_tie_ssh_version : forall v, ssh_version v = src_get_ssh_version v.
 Proof. exact tie_ssh_version. Qed.
+(* the "available since" text is Algorithm.get_since_text as it reads now (T1c translation of its loop body, its token reader and its final join) *)
+Theorem c03_tie_since_text : forall vers,
+  since_text vers =
+  match vers with
+  | Some v0 :: _ =>
+      match flat_map (fun v => src_since_token (fst (fst (src_get_ssh_version v))) (snd (fst (src_get_ssh_version v))) (snd (src_get_ssh_version v))) (split_on ","%char v0) with
+      | [] => None
+      | tv => Some (src_since_join tv)
+      end
+  | _ => None
+  end.
+Proof. exact tie_since_text. Qed.
